@@ -16,7 +16,7 @@ LEVEL = "exploration"
 RULE = (
     "base = strict readout (standard ident line, 0..60 data lines, CRLF/LF, correct checksum). variants per base: unchanged; checksum text replaced by "
     "{correct in lower/mixed case, 0000, 0001, FFFF, correct+-1, random 4 hex}; checksum removed; single-bit flips (every bit of small readouts, random bits "
-    "of larger ones); plus readouts searched to have a true CRC of 0x0000. Each variant is checked as DataReadout(bytes) and as returned by "
+    "of larger ones); good + damaged pairs and noise + good readouts through one reader; plus readouts searched to have a true CRC of 0x0000. Each variant is checked as DataReadout(bytes) and as returned by "
     "ModeDReader.read() under several splittings. evaluations = validity verdicts observed; distinct non-trivial = distinct variant byte strings "
     "that carry a checksum field (4 hex digits after '!')."
 )
@@ -133,9 +133,29 @@ def check_pair(base: bytes, rng, ctx) -> None:
                     ctx.violation("C04:readout-bytes-differ-from-sent", "readout returned by the reader is not byte-identical to the one sent", case)
 
 
+def check_after_noise(base: bytes, rng, ctx) -> None:
+    """Noise (incl. over-long lines/readouts that trip the reader's guard), then good readouts through the SAME reader:
+    every returned readout is judged on its own bytes; a byte-identical good one must be valid."""
+    from vf.props import c16
+
+    noise, kind = c16.p1_noise(rng)
+    others = [p1_gen.strict_readout(rng, None, rng.choice((0, 2, 5))) for _ in range(2)]
+    sent = [base] + others
+    stream = noise + b"".join(sent)
+    for spec in (("none",), ("fixed", rng.choice((64, 100, 1000, 4096)), rng.randrange(64)), splits.random_spec(rng, len(stream))):
+        obs, exc, _ = p1_mon.run(splits.chunks(stream, spec))
+        ctx.count("after_noise_executions")
+        case = {"readout": stream, "label": f"after_noise:{kind}", "expect_valid": None, "split": list(spec)}
+        for o in obs:
+            if o["bytes"] is None:
+                continue
+            judge(o["bytes"], o, ctx, dict(case, via="reader-after-noise"), True if o["bytes"] in sent else None, f"reader-after-noise[{kind}]")
+
+
 def variants_of(base: bytes, rng, ctx, exhaustive_flips: bool) -> None:
     good = p1_gen.correct_checksum(base)
     check_pair(base, rng, ctx)
+    check_after_noise(base, rng, ctx)
     check_variant(base, True, ctx, rng, "correct")
     hx = "%04X" % good
     if hx.lower() != hx:
